@@ -16,6 +16,7 @@
 // Access to VoseAliasSampler::prob_/alias_ (table dump).  Placed after the standard/Eigen headers so
 // only AI-Toolbox classes are affected; this TU only (access specifiers do not change the layout).
 #include <tuple>
+#include <sstream>
 #include <utility>
 #include <iosfwd>
 #include <boost/multi_array.hpp>
@@ -28,6 +29,7 @@
 #include <AIToolbox/MDP/Model.hpp>
 #include <AIToolbox/MDP/SparseModel.hpp>
 #include <AIToolbox/POMDP/Model.hpp>
+#include <AIToolbox/POMDP/SparseModel.hpp>
 #undef private
 
 using namespace AIToolbox;
@@ -56,6 +58,79 @@ static Replay genOf(const std::vector<double> & us, size_t rep = 1) {
 // the value the library's own distribution object draws from this generator state
 static double drawn01(Replay g) { return probabilityDistribution(g); }
 static double drawnN(Replay g, size_t n) { std::uniform_real_distribution<double> d(0, n); return d(g); }
+
+// ---- replaying chosen draws through a std::mt19937 (the models own a private RandomEngine) ----
+// generate_canonical<double,53> over a 32-bit engine takes two words (low first) and returns
+// (lo + hi*2^32)/2^64; for u = m/2^53 the 64-bit word m*2^11 reproduces u exactly.  The engine state
+// is loaded through operator>> with untempered words and position 0, and checked before use.
+static uint32_t untemper(uint32_t y) {
+    y ^= y >> 18;
+    y ^= (y << 15) & 0xefc60000u;
+    uint32_t t = y;
+    for (int k = 0; k < 5; ++k) t = y ^ ((t << 7) & 0x9d2c5680u);
+    y = t;
+    t = y;
+    for (int k = 0; k < 3; ++k) t = y ^ (t >> 11);
+    return t;
+}
+static RandomEngine engineOf(const std::vector<double> & us) {
+    std::vector<uint32_t> words;
+    for (double u : us) { uint64_t x = rawOf(u); words.push_back((uint32_t) (x & 0xffffffffu)); words.push_back((uint32_t) (x >> 32)); }
+    if (words.size() > 624) throw std::logic_error("engineOf: too many draws");
+    std::ostringstream os;
+    for (size_t i = 0; i < 624; ++i) os << untemper(i < words.size() ? words[i] : 0u) << ' ';
+    os << 0;
+    std::istringstream is(os.str());
+    RandomEngine e; is >> e;
+    RandomEngine chk = e;
+    for (uint32_t w : words) if (chk() != w) throw std::logic_error("engineOf: replay engine does not reproduce the words");
+    return e;
+}
+
+// dumps the model's own rows for (s,a) and runs the samplers with replayed draws
+template <typename M>
+static void runMdp(M & model, size_t s, size_t a, const std::vector<double> & us, vio::Out & o) {
+    const size_t S = model.getS();
+    std::vector<double> row(S), rew(S);
+    for (size_t s1 = 0; s1 < S; ++s1) { row[s1] = model.getTransitionProbability(s, a, s1); rew[s1] = model.getExpectedReward(s, a, s1); }
+    o.list(row); o.list(rew);
+    o << us.size();
+    for (double u : us) {
+        model.rand_ = engineOf({u});
+        RandomEngine copy = model.rand_;
+        o << probabilityDistribution(copy);
+        auto [s1, r] = model.sampleSR(s, a);
+        o << s1 << r;
+    }
+}
+template <typename P, typename M>
+static void runPomdp(P & model, size_t s, size_t a, const std::vector<double> & us, vio::Out & o) {
+    const size_t S = model.getS(), O = model.getO();
+    std::vector<double> row(S), rew(S);
+    for (size_t s1 = 0; s1 < S; ++s1) { row[s1] = model.getTransitionProbability(s, a, s1); rew[s1] = model.getExpectedReward(s, a, s1); }
+    o.list(row); o.list(rew);
+    for (size_t s1 = 0; s1 < S; ++s1) {
+        std::vector<double> orow(O);
+        for (size_t ob = 0; ob < O; ++ob) orow[ob] = model.getObservationProbability(s1, a, ob);
+        o.list(orow);
+    }
+    if (us.size() % 3) throw std::logic_error("pomdp: draws come in triples");
+    o << us.size() / 3;
+    for (size_t k = 0; k + 2 < us.size(); k += 3) {
+        model.M::rand_ = engineOf({us[k]});
+        model.rand_ = engineOf({us[k + 1]});
+        RandomEngine c1 = model.M::rand_, c2 = model.rand_;
+        double u1 = probabilityDistribution(c1), u2 = probabilityDistribution(c2);
+        auto [s1, ob1, r1] = model.sampleSOR(s, a);
+        o << u1 << s1 << r1 << u2 << ob1;
+        if (s1 >= S) { o << "SKIP"; continue; }
+        model.rand_ = engineOf({us[k + 2]});
+        RandomEngine c3 = model.rand_;
+        double u3 = probabilityDistribution(c3);
+        auto [ob2, r2] = model.sampleOR(s, a, s1);
+        o << u3 << ob2 << r2;
+    }
+}
 
 int main(int argc, char ** argv) {
     return vio::runCases(argc, argv, [](vio::Cursor & c, vio::Out & o) {
@@ -127,10 +202,13 @@ int main(int argc, char ** argv) {
             std::vector<double> rv(r.data(), r.data() + r.size());
             o.list(rv);
         } else if (kind == "sr") {
-            // sr <variant> <S> <A> <O> T[a][s][s1]… R[s][a]… (Ob[a][s1][o]… if O>0) <s> <a> <m> <seed>
-            //   ->  m × (u1 s1 r [u2 o])   variant: dense | sparse | pomdp
-            // The models own a private mt19937; the draw is observed by replaying the library's
-            // distribution object on a copy of the engine taken just before the call.
+            // sr <variant> <S> <A> <O> T[a][s][s1]… R[s][a]… Ob[a][s1][o]… <s> <a> <k> u…
+            //   variant: mdp.d | mdp.s (sampleSR of MDP::Model / MDP::SparseModel; one draw per sample)
+            //            pomdp.XY, X = class of the POMDP layer (d = POMDP::Model, s = POMDP::SparseModel),
+            //            Y = underlying MDP class; draws come in triples (u1,u2 for sampleSOR, u3 for sampleOR(s,a,s1))
+            //   -> the model's own rows: T(s,a,.), R(s,a,.) [, O(s1,a,.) for every s1], then per sample
+            //      mdp:   u1 s1 r          pomdp: u1 s1 r u2 o u3 o' r'
+            // The models own private mt19937 engines; they are overwritten with replay engines.
             const std::string variant = c.next();
             size_t S = c.nextSize(), A = c.nextSize(), O = c.nextSize();
             boost::multi_array<double, 3> t(boost::extents[S][A][S]), r(boost::extents[S][A][S]);
@@ -138,34 +216,16 @@ int main(int argc, char ** argv) {
             for (size_t s = 0; s < S; ++s) for (size_t a = 0; a < A; ++a) { double x = c.nextDouble(); for (size_t s1 = 0; s1 < S; ++s1) r[s][a][s1] = x; }
             boost::multi_array<double, 3> ob(boost::extents[S][A][O ? O : 1]);
             for (size_t a = 0; a < A; ++a) for (size_t s1 = 0; s1 < S; ++s1) for (size_t o = 0; o < O; ++o) ob[s1][a][o] = c.nextDouble();
-            size_t s = c.nextSize(), a = c.nextSize(), m = c.nextSize();
-            Seeder::setRootSeed((unsigned) c.nextSize());    // the models seed their engines from the global seeder
-            o << m;
-            if (variant == "dense") {
-                MDP::Model model(S, A, t, r, 0.5);
-                for (size_t k = 0; k < m; ++k) {
-                    RandomEngine copy = model.rand_;
-                    o << probabilityDistribution(copy);
-                    auto [s1, rew] = model.sampleSR(s, a);
-                    o << s1 << rew;
-                }
-            } else if (variant == "sparse") {
-                MDP::SparseModel model(S, A, t, r, 0.5);
-                for (size_t k = 0; k < m; ++k) {
-                    RandomEngine copy = model.rand_;
-                    o << probabilityDistribution(copy);
-                    auto [s1, rew] = model.sampleSR(s, a);
-                    o << s1 << rew;
-                }
-            } else if (variant == "pomdp") {
-                POMDP::Model<MDP::Model> model(O, ob, S, A, t, r, 0.5);
-                for (size_t k = 0; k < m; ++k) {
-                    RandomEngine c1 = model.MDP::Model::rand_, c2 = model.rand_;
-                    double u1 = probabilityDistribution(c1), u2 = probabilityDistribution(c2);
-                    auto [s1, ob1, rew] = model.sampleSOR(s, a);
-                    o << u1 << s1 << rew << u2 << ob1;
-                }
-            } else throw std::logic_error("sr: unknown variant " + variant);
+            size_t s = c.nextSize(), a = c.nextSize();
+            std::vector<double> us = c.nextDoubles();
+            Seeder::setRootSeed(1u);
+            if (variant == "mdp.d") { MDP::Model m(S, A, t, r, 0.5); runMdp(m, s, a, us, o); }
+            else if (variant == "mdp.s") { MDP::SparseModel m(S, A, t, r, 0.5); runMdp(m, s, a, us, o); }
+            else if (variant == "pomdp.dd") { POMDP::Model<MDP::Model> m(O, ob, S, A, t, r, 0.5); runPomdp<decltype(m), MDP::Model>(m, s, a, us, o); }
+            else if (variant == "pomdp.ds") { POMDP::Model<MDP::SparseModel> m(O, ob, S, A, t, r, 0.5); runPomdp<decltype(m), MDP::SparseModel>(m, s, a, us, o); }
+            else if (variant == "pomdp.sd") { POMDP::SparseModel<MDP::Model> m(O, ob, S, A, t, r, 0.5); runPomdp<decltype(m), MDP::Model>(m, s, a, us, o); }
+            else if (variant == "pomdp.ss") { POMDP::SparseModel<MDP::SparseModel> m(O, ob, S, A, t, r, 0.5); runPomdp<decltype(m), MDP::SparseModel>(m, s, a, us, o); }
+            else throw std::logic_error("sr: unknown variant " + variant);
         } else throw std::logic_error("unknown case kind " + kind);
     });
 }
